@@ -18,6 +18,7 @@ import (
 	"strconv"
 	"strings"
 	"sync"
+	"sync/atomic"
 	"time"
 
 	bs "github.com/danthegoodman1/bloomsearch"
@@ -860,6 +861,7 @@ func runC14(c *ctx) {
 	for i := 0; i < 2*c.scale; i++ {
 		c14PrefilteredReaders(c, r, 60)
 	}
+	c14FlushInFlight(c, r)
 	c14FS(c, r, "omission")
 	c14FS(c, r, "duplication")
 	for i := 0; i < 3*c.scale; i++ {
@@ -884,4 +886,109 @@ func (x *gatedFailing) CreateFile(ctx context.Context) (io.WriteCloser, []byte, 
 	}
 	x.f.created++
 	return &failingWriter{WriteCloser: w, fs: x.f, idx: x.f.created}, p, nil
+}
+
+// parkCloseFS parks the writer's Close of the next file on demand (a flush caught between reserving its name
+// and publishing its bytes).
+type parkCloseFS struct {
+	*bs.FileSystemDataStore
+	armed   atomic.Bool
+	parked  chan struct{}
+	release chan struct{}
+}
+
+type parkCloseWriter struct {
+	io.WriteCloser
+	fs *parkCloseFS
+}
+
+func (w *parkCloseWriter) Close() error {
+	if w.fs.armed.CompareAndSwap(true, false) {
+		close(w.fs.parked)
+		<-w.fs.release
+	}
+	return w.WriteCloser.Close()
+}
+func (w *parkCloseWriter) Abort() error { return w.WriteCloser.(interface{ Abort() error }).Abort() }
+
+func (f *parkCloseFS) CreateFile(ctx context.Context) (io.WriteCloser, []byte, error) {
+	w, p, err := f.FileSystemDataStore.CreateFile(ctx)
+	if err != nil {
+		return w, p, err
+	}
+	return &parkCloseWriter{WriteCloser: w, fs: f}, p, nil
+}
+
+// c14FlushInFlight: FileSystemDataStore as MetaStore, merge-free. Three flushes are committed; a fourth is caught
+// between reserving its name (the empty .dat reservation and the temp file exist) and publishing. Its name sorts
+// before, between or after the committed files. A query started now returns every acknowledged row exactly once.
+func c14FlushInFlight(c *ctx, r Rng) {
+	for _, inflight := range []string{"a0", "n5", "zz"} {
+		dir, err := os.MkdirTemp("", "bsinflight")
+		if err != nil {
+			fatal("tempdir: %v", err)
+		}
+		fs := bs.NewFileSystemDataStore(dir)
+		names := []string{"m1", "m2", "z9", inflight, "q1", "q2", "q3"}
+		ni := 0
+		bs.VerifSetDrawFileName(fs, func() string { ni++; return names[(ni-1)%len(names)] + strings.Repeat("x", (ni-1)/len(names)) })
+		pfs := &parkCloseFS{FileSystemDataStore: fs, parked: make(chan struct{}), release: make(chan struct{})}
+		cfg := snapCfg(r)
+		weng, err := bs.NewBloomSearchEngine(cfg, fs, pfs)
+		if err != nil {
+			fatal("engine: %v", err)
+		}
+		weng.Start()
+		qeng, err := bs.NewBloomSearchEngine(cfg, fs, fs)
+		if err != nil {
+			fatal("engine: %v", err)
+		}
+		before := map[int]bool{}
+		sent := map[int]bool{}
+		id := 0
+		for f := 0; f < 3; f++ {
+			var rows []map[string]any
+			for k := 0; k < 2; k++ {
+				id++
+				sent[id] = true
+				rows = append(rows, map[string]any{"_id": id, "p": "a"})
+			}
+			done := make(chan error, 1)
+			weng.IngestRows(context.Background(), rows, done)
+			weng.Flush(context.Background())
+			if <-done == nil {
+				before[id-1], before[id] = true, true
+			}
+		}
+		pfs.armed.Store(true)
+		id++
+		sent[id] = true
+		d4 := make(chan error, 1)
+		weng.IngestRows(context.Background(), []map[string]any{{"_id": id, "p": "a"}}, d4)
+		go weng.Flush(context.Background())
+		parked := false
+		select {
+		case <-pfs.parked:
+			parked = true
+		case <-time.After(5 * time.Second):
+		}
+		out := RunQuery(qeng, &bs.Query{})
+		ents, _ := os.ReadDir(dir)
+		var listing []string
+		for _, e := range ents {
+			listing = append(listing, e.Name())
+		}
+		close(pfs.release)
+		<-d4
+		c.r.Case(parked, "flush-in-flight "+inflight)
+		c.r.Hit("fs.flush-in-flight")
+		resultMonitor(c, "FileSystemDataStore as MetaStore, a flush in flight (reservation "+inflight+".dat)", out, before, sent, "", map[string]any{"store": "FileSystemDataStore as MetaStore", "mode": "flush-in-flight", "directory_at_query": listing, "returned": sortedIDs(out.Rows), "err": fmt.Sprint(out.Err)})
+		if out.Err != nil {
+			c.r.Add(Finding{Kind: "violation", Check: "snapshot-query-error", Detail: fmt.Sprintf("a query over a directory with a flush in flight (reservation %s.dat) failed: %v", inflight, out.Err), Replay: map[string]any{"directory_at_query": listing}})
+		}
+		ctx, cancel := context.WithTimeout(context.Background(), 10*time.Second)
+		weng.Stop(ctx)
+		cancel()
+		os.RemoveAll(dir)
+	}
 }
